@@ -18,7 +18,7 @@ RULE = ("(CNF F, transformation, parameters): all CNFs with <= 2 variables and <
         "transformed formula <= 16 (quick) / 20 (thorough) variables; distinct = (F, transformation, parameters); trivial = F without clauses.")
 ASSUMPTIONS = ["vmon/tt.py truth tables (self-checked)", "gadget functions of this module (xor, or, majority = at least half, "
                "all-equal, exactly-one, thresholds, if-then-else, selection) are the documented ones"]
-REQUIRED = ["library_calls", "cli_calls", "exact_cases", "compression_cases", "lifting_cases", "empty_clause_inputs",
+REQUIRED = ["library_calls", "cli_calls", "exact_cases", "compression_cases", "lifting_cases", "empty_clause_inputs", "sampled_cases", "sampled_assignments",
             "unused_variable_inputs"] + ["t_" + t for t in ("xor", "or", "maj", "eq", "neq", "one", "exact", "atleast", "atmost",
                                                              "anybut", "ite", "lift", "flip", "xorcomp", "majcomp")]
 CASE_TIMEOUT = {"quick": 300, "thorough": 1800}
@@ -384,6 +384,8 @@ def workload(tier, seed):
         yield "small", {"lo": lo, "hi": lo + step}
     for i in range(40 if tier == "quick" else 3000):
         yield "seeded", {"rseed": seed * 10000 + i, "count": 12}
+    for i in range(16 if tier == "quick" else 400):
+        yield "sampled", {"rseed": seed * 10000 + i, "count": 25}
     for fn in ("xorcomp", "majcomp"):
         for (L, R) in ((1, 1), (1, 3), (2, 2), (2, 3), (3, 2), (3, 4), (2, 4)):
             nm = 1 << (L * R)
@@ -397,3 +399,102 @@ def workload(tier, seed):
                 yield "compression", {"L": L, "R": R, "masks": masks[i:i + 32], "fn": fn}
     for i in range(8 if tier == "quick" else 240):
         yield "cli", {"rseed": seed * 1000 + i, "count": 6}
+
+
+# ------------------------------------------------------------------ beyond the cap: sampled assignments, larger arities
+def gadget_value(kind, params, N, a, v):
+    """value of original variable v (0-based) under assignment a (set of true new variables)"""
+    if kind in ("xor", "or", "maj", "eq", "neq", "one", "exact", "atleast", "atmost", "anybut"):
+        k = params[0]
+        cnt = sum(1 for i in range(1, k + 1) if v * k + i in a)
+        if kind == "xor":
+            return cnt % 2 == 1
+        if kind == "or":
+            return cnt >= 1
+        if kind == "maj":
+            return 2 * cnt >= k
+        if kind == "eq":
+            return cnt in (0, k)
+        if kind == "neq":
+            return cnt not in (0, k)
+        if kind == "one":
+            return cnt == 1
+        K = params[1]
+        return {"exact": cnt == K, "atleast": cnt >= K, "atmost": cnt <= K, "anybut": cnt != K}[kind]
+    if kind == "ite":
+        return (N + v + 1 in a) if (v + 1 in a) else (2 * N + v + 1 in a)
+    if kind == "lift":
+        k = params[0]
+        return any((v * 2 * k + i in a) and (v * 2 * k + k + i in a) for i in range(1, k + 1))
+    if kind == "flip":
+        return v + 1 not in a
+    nbrs = params[0][v]
+    cnt = sum(1 for b in nbrs if b in a)
+    return cnt % 2 == 1 if kind == "xorcomp" else 2 * cnt >= len(nbrs)
+
+
+def case_sampled(ctx, rseed, count):
+    from ..refmodels.names import eval_formula
+    r = ctx.rng("c05sampled", rseed)
+    for _ in range(count):
+        N = r.randint(2, 12)
+        used = r.randint(1, N)
+        cls = [[r.choice([1, -1]) * r.randint(1, used) for _ in range(r.choice([0, 1, 2, 3, 3, 4]))] for _ in range(r.randint(1, 14))]
+        kind = r.choice(["xor", "or", "maj", "eq", "neq", "one", "exact", "atleast", "atmost", "anybut", "ite", "lift", "flip", "xorcomp", "majcomp"])
+        if kind in ("xor", "or", "maj", "eq", "neq", "one"):
+            params = [r.randint(2, 4 if kind == "xor" else 7)]
+        elif kind in ("exact", "atleast", "atmost", "anybut"):
+            n_ = r.randint(2, 6)
+            params = [n_, r.randint(-1, n_ + 1)]
+        elif kind == "lift":
+            params = [r.randint(2, 5)]
+        elif kind in ("xorcomp", "majcomp"):
+            R = r.randint(3, 14)
+            params = [[sorted(r.sample(range(1, R + 1), r.randint(0, min(R, 4 if kind == "xorcomp" else 6)))) for _ in range(N)], R]
+        else:
+            params = []
+        # substitutions distribute over clauses: keep the product of gadget sizes affordable
+        width = max([len(c) for c in cls] or [0])
+        blow = {"xor": 2 ** (params[0] - 1) if kind == "xor" else 1}.get(kind, 8)
+        if kind == "xor" and blow ** width > 5000:
+            cls = [c[:2] for c in cls]
+        if kind in ("maj", "exact", "atleast", "atmost", "anybut", "majcomp") and width > 2:
+            cls = [c[:2] for c in cls]
+        F = build_input(N, cls)
+        label = "%s%r on CNF(%d vars, %d clauses)" % (kind, params if kind not in ("xorcomp", "majcomp") else [params[1]], N, len(cls))
+        st, T = ctx.call(apply_library, kind, params, F)
+        ctx.count("library_calls")
+        ctx.count("t_" + kind)
+        if st == "exc":
+            ctx.violation("%s:raises:%s" % (kind, type(T).__name__), "%s raised %r" % (label, T))
+            continue
+        nnew = new_numvar(kind, params, N)
+        if T.number_of_variables() != nnew:
+            ctx.violation("%s:numvar" % kind, "%s: %d variables, documented %d" % (label, T.number_of_variables(), nnew))
+            continue
+        ctx.count("sampled_cases")
+        for j in range(120):
+            p = r.choice([0.1, 0.3, 0.5, 0.5, 0.7, 0.9])
+            a = {v for v in range(1, nnew + 1) if r.random() < p}
+            if kind == "lift" and j % 3:
+                k = params[0]
+                for v in range(N):                      # exactly one selector per variable
+                    for i in range(1, k + 1):
+                        a.discard(v * 2 * k + k + i)
+                    a.add(v * 2 * k + k + r.randint(1, k))
+            got = eval_formula(T, a)
+            valid = True
+            if kind == "lift":
+                k = params[0]
+                valid = all(sum(1 for i in range(1, k + 1) if v * 2 * k + k + i in a) == 1 for v in range(N))
+            vals = [gadget_value(kind, params, N, a, v) for v in range(N)]
+            exp = valid and all(any(vals[abs(l) - 1] == (l > 0) for l in c) for c in cls)
+            ctx.count("sampled_assignments")
+            if got != exp:
+                ctx.violation("%s:sampled-models" % kind, "%s: an assignment %s the transformed formula but its induced assignment %s F"
+                              % (label, "satisfies" if got else "falsifies", "falsifies" if got else "satisfies"),
+                              F=cls, params=params if kind not in ("xorcomp", "majcomp") else params[0][:6], true_vars=sorted(a)[:40])
+                break
+        ctx.judged(("sampled", tuple(map(tuple, cls)), N, kind, repr(params)), nontrivial=True,
+                   sample={"F_vars": N, "F_clauses": len(cls), "transformation": [kind, params if kind not in ("xorcomp", "majcomp") else params[1]],
+                           "new_variables": nnew, "mode": "sampled"})
